@@ -159,6 +159,16 @@ func TestC03_SubscriptionAlgebra(t *testing.T) {
 			},
 			"": func(t *rapid.T) {
 				nsteps++
+				// every call on a subscription returns: a teardown that panicked (also one
+				// added after disposal, which runs inside Add) must not leave it locked
+				answered := make(chan bool, 1)
+				go func() { answered <- sub.IsClosed() }()
+				select {
+				case <-answered:
+				case <-time.After(3 * time.Second):
+					fail("subscription-unusable-after-a-teardown-panicked", fmt.Sprintf("IsClosed() still blocked after 3s (teardowns so far: %d, panicking: %v, disposed: %v)", next, panics, done))
+					t.FailNow()
+				}
 				if sub.IsClosed() != done {
 					fail("isclosed-wrong", fmt.Sprintf("IsClosed() = %v, model says %v", sub.IsClosed(), done))
 				}
